@@ -84,6 +84,11 @@ def _job(args):
     return d
 
 
+def extra_checks_mod():
+    from contracts import extra_checks
+    return extra_checks
+
+
 def load_known():
     p = os.path.join(ROOT, 'known_findings.json')
     if not os.path.exists(p):
@@ -177,6 +182,7 @@ def report(prop, tier, seed, results, extra, trusted, t0, rebaseline, verbose):
     violations = []
     unreachable = []
     dead_cases = []
+    cvc5_cross = {}
     bounded = []
     skipped = []
     known_lines = []
@@ -189,6 +195,10 @@ def report(prop, tier, seed, results, extra, trusted, t0, rebaseline, verbose):
         for b in (o.get('backend') or 'syntactic').split('+'):
             by_backend[b] = by_backend.get(b, 0) + 1
         st = o['status']
+        for cx in o.get('cvc5_cross_check', []):
+            cvc5_cross[cx] = cvc5_cross.get(cx, 0) + 1
+            if cx == 'sat' and st == 'proved':
+                problems['selfcheck'].append((o['name'], 'second back end disagrees: z3 proved the obligation, cvc5 reports a counter-model'))
         if st == 'proved':
             discharged += 1
             continue
@@ -282,6 +292,7 @@ def report(prop, tier, seed, results, extra, trusted, t0, rebaseline, verbose):
             'trusted_base': sorted(assumptions) + ['assumed contract (not verified): ' + t for t in trusted],
             'functions_under_contract': functions,
             'by_backend': by_backend, 'solver_s': round(solver_s, 2),
+            'cvc5_cross_check_of_a_fixed_sample(thorough tier)': cvc5_cross,
             'samples': samples,
             'known_findings': [{'obligation': k['obligation'], 'what': k['what']} for k, _ in known_lines],
             'unverifiable': [{'function': t, 'reason': why} for t, why in problems['unverifiable'] + problems['missing']],
@@ -290,6 +301,7 @@ def report(prop, tier, seed, results, extra, trusted, t0, rebaseline, verbose):
             'not_examined_after_three_failures_in_the_function': skipped,
             'specification_cases_no_longer_reachable': unreachable,
             'specification_cases_no_path_realises': dead_cases,
+            'known_finding_witnesses_run_natively(thorough tier)': getattr(extra_checks_mod(), 'WITNESS_RUNS', {}).get(prop, {}),
             'bounded_stand_ins_not_counted_as_proved': bounded,
             'extraction': 'functions are read from %s on every run with ast; dropped: docstrings, comments, the effect of logging '
                           'calls (arguments still evaluated), the keywords async/await' % source.PKG_DIR,
